@@ -1161,8 +1161,8 @@ MANIFEST_TEXT = {
 
 
 # ------------------------------------------------------------------ round-4 additions to the manifest texts
-_SYS = (" Additionally System.tla (the whole accept pipeline and spawned clients, 23 actions) is model-checked against the end-to-end rules of "
-        "ObsSys.tla, its phased behaviours are exported as schedules, and the real stack (server::incoming combinators, spawn_incoming, "
+_SYS = (" Additionally System.tla (the whole accept pipeline and spawned clients, 24 actions) is model-checked against the end-to-end rules of "
+        "ObsSys.tla (scale scenarios beyond the runtime's per-poll budget included), its phased behaviours are exported as schedules, and the real stack (server::incoming combinators, spawn_incoming, "
         "NewClient::spawn on a current-thread tokio runtime with a paused clock, run until idle) is executed on them and on seeded random "
         "schedules; Trace_Sys.tla judges the recorded traces with the same rules (%s).")
 for _p, _r in (("C01", "Inv_C01sys"), ("C02", "Inv_C02sys"), ("C03", "Inv_C03sys"), ("C04", "Inv_C04sys"), ("C10", "Inv_C10sys"), ("C12", "Inv_C12sys"), ("C13", "Inv_C13sys")):
@@ -1180,5 +1180,11 @@ MANIFEST_TEXT["C04"] = dict(MANIFEST_TEXT["C04"], note=MANIFEST_TEXT["C04"]["not
 MANIFEST_TEXT["C16"] = dict(MANIFEST_TEXT["C16"], text=MANIFEST_TEXT["C16"]["text"] + " Two-rpc services enumerated by Glue.tla are compiled and their generated "
                             "clients called against a peer that answers with a well-formed response of the other rpc's type (Trace_Glue.tla: no panic).")
 MANIFEST_TEXT["C17"] = dict(MANIFEST_TEXT["C17"], text=MANIFEST_TEXT["C17"]["text"] + " The shape family includes #[cfg]-gated rpcs (present or compiled out).")
+_SYSF = (" Additionally the whole stack (spawn_incoming + Channel::execute + spawned clients on a tokio runtime) is executed with one "
+         "injected failure of the server's transport (read / readiness / flush; JSON and bincode) and judged by Trace_Sys.tla (%s): the "
+         "failed transport is never used again, the channel is dropped and its handlers are aborted; System.tla with its fault action "
+         "(S_SrvFault) is model-checked against the same ObsSys rules.")
+MANIFEST_TEXT["C09"] = dict(MANIFEST_TEXT["C09"], text=MANIFEST_TEXT["C09"]["text"] + _SYSF % "Inv_C09sys")
+MANIFEST_TEXT["C14"] = dict(MANIFEST_TEXT["C14"], text=MANIFEST_TEXT["C14"]["text"] + _SYSF % "Inv_C14sys")
 
 NOT_APPLICABLE = {}
